@@ -49,7 +49,12 @@ fn check_entity_components(world: &World, result: &mut Vec<Message>) -> Result<(
                 }
             }
         }
-
+    }
+    for arch in world
+        .archetypes()
+        .iter()
+        .filter(|arch| arch.contains(sync_down_id))
+    {
         for c_id in arch
             .components()
             .filter(|&c_id| track.registered_componets_for_sync.contains(&c_id))
